@@ -323,6 +323,18 @@ def eval_atom_side(node, env, fmts, W):
     return v, signed, facts
 
 
+def expr_class(n):
+    """the library class an operand expression is an instance of"""
+    if n[0] == "bin":
+        if n[1] == "&":
+            return "And"
+        if n[1] in "+-" and n[2][0] == "reg" and n[2][1] in ("r", "sr") \
+                and n[3][0] == "const":
+            return "Sum"
+        return "Binary"
+    return n[0]
+
+
 def width_of(nodes, fmts):
     lv = []
     for n in nodes:
@@ -339,14 +351,26 @@ def eval_cond(c, env, fmts, info):
         signed = sa or sb
         if not c01.fits(a, signed, W) or not c01.fits(b, signed, W):
             raise Unjudged("compared value does not fit")
-        ll = [dsl.SIZES[c01.leaf_fmt(n, fmts)] for n in leaves_in(c[2], [])]
-        rl = [dsl.SIZES[c01.leaf_fmt(n, fmts)] for n in leaves_in(c[3], [])]
+        # the sides as the generated comparison has them: Python hands the
+        # comparison to the right operand first when that is a constant's
+        # partner or of a subclass of the left operand's class (an `&`
+        # expression or a register-plus-constant sum against another binary
+        # expression), which swaps the sides
+        L, R = c[2], c[3]
+        a_, sa_, fa_, b_, sb_, fb_ = a, sa, fa, b, sb, fb
+        if L[0] == "const" or (expr_class(L) == "Binary"
+                               and expr_class(R) in ("And", "Sum")):
+            L, R = R, L
+            a_, sa_, fa_, b_, sb_, fb_ = b, sb, fb, a, sa, fa
+        ll = [dsl.SIZES[c01.leaf_fmt(n, fmts)] for n in leaves_in(L, [])]
+        rl = [dsl.SIZES[c01.leaf_fmt(n, fmts)] for n in leaves_in(R, [])]
         lwide = any(x == 8 for x in ll)
         rwide = any(x == 8 for x in rl)
         rnarrow = bool(rl) and all(x <= 4 for x in rl)
-        if lwide and rnarrow and sb and b < 0 \
-                and (not sa or c01.has_and(c[2])):
+        if lwide and rnarrow and sb_ and b_ < 0 \
+                and (not sa_ or c01.has_and(L)):
             info["facts"].add("wide-left-vs-negative-narrow-right")
+        fa, fb = fa_, fb_
         # a negative 32 bit value widened inside a 64 bit computation: on the
         # right side (evaluated in 64 bit when the other side is wide), or
         # inside a left side that has wide leaves itself.  A left side that
